@@ -320,7 +320,14 @@ func init() {
 	}
 	m["strings.HasSuffix"] = pureStr("str_hassuffix", "(Str Str) Bool", "Bool", types.Typ[types.Bool])
 	m["strings.HasPrefix"] = pureStr("str_hasprefix", "(Str Str) Bool", "Bool", types.Typ[types.Bool])
-	m["strings.TrimPrefix"] = pureStr("str_trimprefix", "(Str Str) Str", "Str", types.Typ[types.String])
+	trim := pureStr("str_trimprefix", "(Str Str) Str", "Str", types.Typ[types.String])
+	m["strings.TrimPrefix"] = func(x *Exec, s *State, fn *ssa.Function, args []Val) Val {
+		v := trim(x, s, fn, args)
+		// TrimPrefix(s, p) is s itself when s does not start with p
+		x.D.declareFun("str_hasprefix", "(Str Str) Bool")
+		s.assume("(=> (not (str_hasprefix " + args[0].L[0] + " " + args[1].L[0] + ")) (= " + v.L[0] + " " + args[0].L[0] + "))")
+		return v
+	}
 	m["strings.ToLower"] = pureStr("str_tolower", "(Str) Str", "Str", types.Typ[types.String])
 }
 
